@@ -183,7 +183,15 @@ class Forest:
             return self.analytic(depth - 1, tables)
         if r < 0.88:
             a = self.term(depth - 1, tables, agg_ok)
-            ref = self.p.new("fn.Cast", a.ref, rnd.choice(["INTEGER", "VARCHAR", "FLOAT"]))
+            ty = rnd.choice(["INTEGER", "VARCHAR", "FLOAT", "const", "const", "sized"])
+            if ty in ("const", "sized"):
+                # the shared type constants of SqlTypes (module-level objects) and sized types derived from them
+                from .prog import Cls
+                ty_ref = self.p.attr(Cls("SqlTypes"), rnd.choice(["VARCHAR", "CHAR", "LONG_VARCHAR", "BINARY", "VARBINARY", "LONG_VARBINARY", "INTEGER", "SIGNED"]))
+                if ty == "sized" :
+                    ty_ref = self.p.call(ty_ref, "__call__", rnd.choice([1, 24, 255]))
+                ty = ty_ref
+            ref = self.p.new("fn.Cast", a.ref, ty)
             return self.put(ref, "fn", tables=a.info.get("tables", []), agg=False)
         if r < 0.92:
             vals = [self.const() for _ in range(rnd.randint(0, 3))]
